@@ -20,7 +20,8 @@ RULE = ('roles base + k*"-of", k in 0..4, with and without the leading colon; ba
         '(DESIGN 3.2): every literal role of the model tables (pattern roles instantiated: :ARG0, '
         ':ARG9, :op1, :op10, :snt2 ...), roles ending in -of by definition (:consist-of, '
         ':prep-on-behalf-of, :x-of ...), the empty role, :TOP, :instance, undefined bases; models '
-        'default, AMR, no-op, mini-AMR, 40 random tables, 10 tables with normalisation chains '
+        'default, AMR, no-op, mini-AMR, 40 random tables (literal roles, regex roles incl. patterns that '
+        'end in -of such as :(u|w)-of, normalisations), 10 tables with normalisation chains '
         '(single-lookup clause only); tree clause on WF-T trees whose roles are additionally '
         'over-inverted and stripped of their colon. Exhaustive over that finite role x model grid. '
         'Non-trivial: k>=1 or the base is model-defined.')
@@ -31,7 +32,7 @@ ANCHORS = ['penman.model:Model.canonicalize_role', 'penman.model:Model._canonica
            'penman.transform:_canonicalize_node']
 PROBES = {'C17': 20}
 MIN_EVAL = {'quick': 5000, 'thorough': 20000}
-REQUIRED_COUNTERS = ['roles', 'trees', 'defined-ending-in-of', 'normalised']
+REQUIRED_COUNTERS = ['roles', 'trees', 'defined-ending-in-of', 'normalised', 'short_lived_models']
 EXTRA_BASES = [':foo', ':ARG0', ':', ':a-b', ':TOP', ':instance', ':op', ':ARG10', ':x', ':consist-of',
                ':prep-on-behalf-of', ':prep-out-of', ':mod', ':domain', ':\u00e9t\u00e9']
 
@@ -88,6 +89,12 @@ def oracle(ctx, kind, p):
         rng = ctx.rng('tree', p['i'])
         name = (M.FIXED + [f'rand{i}' for i in range(8)])[p['i'] % 12]
         _, m, rm, spec = M.get(name)
+        if p['i'] % 3 == 0:
+            # model churn: a short-lived model object built from a fresh random table, used once
+            # and dropped (state keyed on the identity of an earlier model must not leak)
+            name = f'rand{1000 + p["i"] % 97}'
+            m, rm = M.from_spec(M.rand_spec(1000 + p['i'] % 97), name)
+            ctx.count('short_lived_models')
         node = T.rand_tree(rng, rm)
 
         def over(nd):
@@ -110,7 +117,8 @@ def oracle(ctx, kind, p):
             return (v, out)
         node = over(node)
         ctx.current = ['treecase', {'tree': T.to_json(node), 'model': name}]
-        check_tree(ctx, node, name)
+        check_tree(ctx, node, name, m, rm)
+        del m
         ctx.case(ctx.current, True)
         ctx.count('trees')
     elif kind == 'treecase':
@@ -182,8 +190,9 @@ def shape(node):
                  shape(t) if isinstance(t, tuple) else t) for r, t in br])
 
 
-def check_tree(ctx, node, name):
-    _, m, rm, spec = M.get(name)
+def check_tree(ctx, node, name, m=None, rm=None):
+    if m is None:
+        _, m, rm, spec = M.get(name)
     tree = Tree(node, metadata={'k': 'v'})
     ok, t2 = ctx.call(transform.canonicalize_roles, tree, m, clause='canonicalize_roles',
                       n=T.size(node))
@@ -204,6 +213,9 @@ def check_tree(ctx, node, name):
         want = rm.canon_role(base)
         if rb.partition('~')[0] != want and _rbase_ok(rm, base):
             ctx.fail('canonicalize_roles:role-value', detail=dict(det, role=ra, got=rb, want=want))
+        if rb.partition('~')[0] != m.canonicalize_role(base):
+            ctx.fail('canonicalize_roles!=canonicalize_role', detail=dict(det, role=ra, got=rb,
+                                                                         role_level=m.canonicalize_role(base)))
     ok, t3 = ctx.call(transform.canonicalize_roles, t2, m, clause='canonicalize_roles')
     if ok and t3.node != t2.node and not name.startswith('chain'):
         ctx.fail('canonicalize_roles:idempotent', detail=dict(det, twice=repr(t3.node)[:500]))
